@@ -1111,10 +1111,56 @@ func handleLimit(p *SelectPlan, stmt *ast.SelectStmt) error {
 	need, originOffset, originCount, newLimit := NeedRewriteLimitOrCreateRewrite(stmt)
 	p.offset = originOffset
 	p.count = originCount
+	if stmt.Limit != nil && stmt.GroupBy != nil && !orderByStartsWithGroupByColumns(stmt) {
+		// a group may be spread over several shards: unless the rows are ordered by
+		// the GROUP BY columns themselves, the first rows of a shard say nothing
+		// about the first rows of the merged groups, so every group is fetched
+		stmt.Limit = nil
+		return nil
+	}
 	if need {
 		stmt.Limit = newLimit
 	}
 	return nil
+}
+
+func byItemColumnName(item *ast.ByItem) (string, bool) {
+	switch e := item.Expr.(type) {
+	case *ast.ColumnNameExpr:
+		return e.Name.Table.L + "." + e.Name.Name.L, true
+	case *ColumnNameExprDecorator:
+		return e.ColumnNameExpr.Name.Table.L + "." + e.ColumnNameExpr.Name.Name.L, true
+	}
+	return "", false
+}
+
+// orderByStartsWithGroupByColumns tells whether ORDER BY begins with plain
+// columns of the GROUP BY list and names all of them before anything else, i.e.
+// whether the order of the groups is fixed by their GROUP BY columns alone.
+func orderByStartsWithGroupByColumns(stmt *ast.SelectStmt) bool {
+	if stmt.OrderBy == nil {
+		return false
+	}
+	groupColumns := make(map[string]bool)
+	for _, item := range stmt.GroupBy.Items {
+		name, ok := byItemColumnName(item)
+		if !ok {
+			return false
+		}
+		groupColumns[name] = true
+	}
+	seen := make(map[string]bool)
+	for _, item := range stmt.OrderBy.Items {
+		if len(seen) == len(groupColumns) {
+			return true
+		}
+		name, ok := byItemColumnName(item)
+		if !ok || !groupColumns[name] {
+			return false
+		}
+		seen[name] = true
+	}
+	return len(seen) == len(groupColumns)
 }
 
 func getTableInfoFromTableName(t *ast.TableName) (string, string) {
